@@ -1036,6 +1036,21 @@ def iter_collect_vec(it, args, callee):
     return _collect(it, args[0])
 
 
+@pattern(r'^<.* as Iterator>::collect::<(std::collections::)?HashMap<.*>>$')
+def iter_collect_hashmap(it, args, callee):
+    items = ()
+    for x in _drain(it, args[0]):
+        x = rd(x) if isinstance(x, Ref) else x
+        k, v = x.f
+        for i, (kk, vv) in enumerate(items):
+            if M.key_eq(it, kk, k):
+                items = items[:i] + ((kk, v),) + items[i + 1:]
+                break
+        else:
+            items += ((k, v),)
+    return MapV(items)
+
+
 @pattern(r'^<.* as Iterator>::collect::<(std::string::)?String>$')
 def iter_collect_string(it, args, callee):
     out = ()
